@@ -37,7 +37,7 @@ class FloatNode(BaseNode, SelectNode):
     def set_value(self, value=None):
         """ Set value using value_raw or arbitrary value
         """
-        if value is None and self.value_raw:
+        if value is None and self._has_raw():
             self.value = FloatType(self.cast_value(), self.units_raw, precision=self.precision)
         elif value is not None:
             self.value = FloatType(value, self.units_raw, precision=self.precision)
